@@ -189,7 +189,7 @@ def s4(ck, an):
         ck.fail("ARGFLOW", "S4.request-built", fa.f.short, fa.f.loc, "make_rebalancing_request does not build a Rebalancing", construct="missing:Rebalancing(...)")
     ctor = an.prog.func("Rebalancing.__init__")
     want = {"contracts": "self.contracts", "allocation": f"self._make_allocation({act}, {broker_p})", "fractional": "self._fractional", "margin": "self._margin", "time": time_p,
-            "measure": spec(fa, "'weight' if self._as_weights else 'nr-contracts'").key()}
+            "measure": specv(fa, "'weight' if self._as_weights else 'nr-contracts'").key()}
     for c in calls:
         got = {}
         for i, a in enumerate(c.args):
